@@ -63,7 +63,7 @@ theorem tie_evaluate (support : α) (f : α → α) (x : α)
     (h : decide (Py.fabs x ≤ support) = decide (Filter.absv x ≤ support)) :
     Gen.Kernel.Kernel_evaluate support f x = .ok (Filter.evaluate f support x) := by
   unfold Gen.Kernel.Kernel_evaluate Filter.evaluate Filter.ind
-  simp only []
+  simp only [Py.bind_ok]      -- also when the lambda's parameter has another name than the argument (`Py.bind (.ok x) fun u => …`)
   rw [h]
   by_cases hc : Filter.absv x ≤ support
   · simp only [hc, decide_true, if_true]
